@@ -171,7 +171,7 @@ HARNESSES = [
       fns=['msgpack::transcode (slice loop)'], timeout=600, min_covers=1,
       assumes=['rmp_serde::Deserializer::set_max_depth stubbed by a probe that records its argument', 'next_value_size replaced by its proved contract']),
     # ---- U-PRS / U-CHK ----
-    H('U-PRS', 'parser', 'read_handler_contract', 'bounded-size', ['C17', 'C12', 'C04', 'C02'], bounds='libyaml buffer <= 4 B (+2 canary bytes); reader may lie about any length or fail',
+    H('U-PRS', 'parser', 'read_handler_contract', 'bounded-size', ['C17', 'C12', 'C04', 'C02', 'C10', 'C09'], bounds='libyaml buffer <= 4 B (+2 canary bytes); reader may lie about any length or fail',
       fns=['yaml::chunker::parser::Parser::read_handler'], timeout=600, min_covers=4),
     H('U-PRS', 'parser', 'read_handler_contract_big', 'bounded-size', ['C17', 'C12'], tier='thorough', bounds='libyaml buffer <= 8 B (+2 canary bytes)',
       fns=['yaml::chunker::parser::Parser::read_handler'], timeout=1200, min_covers=4),
